@@ -696,6 +696,17 @@ class Interp:
                 return self.call(c, [f] + list(args), kwargs)
         if callable(f):
             self.models_used.add(getattr(f, "__qualname__", repr(f)))
+            # a model function (axiom / shim / harness helper) that is called with arguments it has no parameter for is a gap of the model -- the
+            # real routine may well take them: the path ends out-of-subset instead of crashing the checker or passing for a TypeError of the code
+            try:
+                import inspect
+
+                sig = inspect.signature(f)
+                sig.bind(*(([self] if getattr(f, "_wants_interp", False) else []) + list(args)), **kwargs)
+            except TypeError as e:
+                raise Unsupported(f"model function {getattr(f, '__qualname__', f)!r} is not modelled for this call: {e}")
+            except ValueError:
+                pass  # no signature available (builtins): call as is
             if getattr(f, "_wants_interp", False):
                 return f(self, *args, **kwargs)
             return f(*args, **kwargs)
@@ -1013,11 +1024,15 @@ class Interp:
             raise Unsupported(f"attribute {name} of symbolic scalar {obj}")
         if hasattr(obj, "__sym_getattr__"):
             return obj.__sym_getattr__(self, name)
-        # python-level helper objects (shims, namespaces, concrete containers)
+        # python-level helper objects (shims, namespaces, concrete containers).  A helper object of a HARNESS that lacks an attribute is a gap of the
+        # model, not an AttributeError of the program: the path ends "out of subset" (undecided), it is not reported as an exception of the code.
+        # (Concrete Python values -- tuples, lists, dicts, strings, numbers, None -- keep Python's own AttributeError.)
         try:
             return getattr(obj, name)
         except AttributeError:
-            raise SymRaise(ExcInst(AttributeError, (name,)))
+            if obj is None or isinstance(obj, (tuple, list, dict, set, frozenset, str, bytes, int, float, bool, complex, range, slice)):
+                raise SymRaise(ExcInst(AttributeError, (name,)))
+            raise Unsupported(f"model object {type(obj).__name__} has no attribute .{name} (a gap of the harness, not an AttributeError of the code)")
 
     def setattr(self, obj, name, value):
         if isinstance(obj, SObj):
